@@ -174,3 +174,31 @@ def dst_on_pinned_end(centre, shift, length, delta=1e-3):
     knots that the warp pins (finding F12)."""
     _, dst = destination(centre, shift, length)
     return min(dst, (length - 1.0) - dst) <= delta
+
+
+def knot_gap(centre, shift, length):
+    """Distance (frames) of the clamped destination to the nearer pinned knot (frame 0 / frame length-1)."""
+    _, dst = destination(centre, shift, length)
+    return min(dst, (length - 1.0) - dst)
+
+
+def knot_gap_class(gap):
+    for bound, name in ((2e-3, "<=2e-3"), (2e-2, "<=2e-2"), (0.2, "<=0.2"), (0.5, "<=0.5")):
+        if gap <= bound:
+            return name
+    return ">0.5"
+
+
+def pad_ratio_class(T, length):
+    r = T / float(length)
+    for bound, name in ((4, "<4"), (16, "<16"), (64, "<64")):
+        if r < bound:
+            return name
+    return ">=64"
+
+
+def spline_ill_conditioned(centre, shift, length, T):
+    """The three knots of the warp live on an axis scaled to [-1, 1] by the PADDED length T.  True when the
+    destination is closer than 1e-3 of that half-range to a pinned knot (2*gap/T < 2e-3): the regime in
+    which a single-precision solve of the spline system loses the ends (classifier only)."""
+    return 2.0 * knot_gap(centre, shift, length) / float(T) < 2e-3
